@@ -39,6 +39,8 @@ structure World where
   rawOk   : Nat → Bool     -- the evaluated object is usable as a type as it is (a class; not `List[B]`)
   isLocal : Bool           -- `self.is_local` (function-local declaration: evaluated refs are cleared)
   isFn    : Bool           -- FunctionParser (`ignore_errors=True`) / ClassParser.__call__ (`False`)
+  schemaBase : Bool := true  -- the class derives from a data class (`Schema`): its parser is asked first
+                             --   (`@utype.dataclass class A:` has base `object`: cls.py skips it)
 
 def World.ref (W : World) (i : Nat) : Bool := decide (i < W.nf) && W.isRef i
 
@@ -52,6 +54,14 @@ structure Use where
   deriving DecidableEq, Repr
 
 abbrev Call := List Use
+
+/-- how a keyword's value was produced: converted by the declared / referenced type, or handed through as it came
+(what happens when `field.type` is `None`) -/
+inductive Conv | byType | asIs
+  deriving DecidableEq, Repr
+
+/-- the value of a call, as far as the parser determines it: per keyword, how it was converted -/
+abbrev ValTrace := List (Nat × Conv)
 
 inductive PC
   | start
@@ -129,6 +139,8 @@ structure Th where
   exc      : Option Outcome := none   -- exception travelling through `finally` and the `with` exit
   wrongF   : Bool := false       -- a value went through unparsed (field.type was None)
   outs     : List Outcome := [] -- outcomes of the finished calls, oldest first
+  vals     : ValTrace := []     -- conversions made so far in the current call
+  vouts    : List ValTrace := [] -- value of every finished call ([] when it raised), oldest first
 
 def G.init (W : World) : G where
   pending := (List.range W.nf).filter W.isRef
@@ -139,7 +151,8 @@ def G.init (W : World) : G where
 
 /-- the call is over: record the outcome, forget the locals, go to the next call -/
 def endCall (t : Th) (o : Outcome) : Th :=
-  { pc := if t.calls.tail.isEmpty then .fin else .chkBase, calls := t.calls.tail, outs := t.outs ++ [o] }
+  { pc := if t.calls.tail.isEmpty then .fin else .chkBase, calls := t.calls.tail, outs := t.outs ++ [o],
+    vouts := t.vouts ++ [if o = .ok then t.vals else []] }
 
 def parseNext (t : Th) : Th :=
   match t.uses with
@@ -147,7 +160,9 @@ def parseNext (t : Th) : Th :=
   | _ :: _ => { t with pc := .pv }
 
 def startParse (t : Th) : Th := parseNext { t with uses := t.calls.headD [] }
-def nextUse (t : Th) : Th := parseNext { t with uses := t.uses.tail }
+/-- the keyword at the head of `uses` is done, converted as `c` -/
+def nextUse (t : Th) (c : Conv := .byType) : Th :=
+  parseNext { t with uses := t.uses.tail, vals := t.vals ++ (t.uses.head?.map fun u => (u.fld, c)).toList }
 
 /-- `resolve_forward_refs` returned or raised -/
 def leaveResolve (W : World) (t : Th) : Th :=
@@ -203,7 +218,7 @@ def afterType (W : World) (t : Th) (u : Use) (v : Val) (deref : Bool) : Th :=
   else match v with
     | .parsed => { t with pc := .nested }
     | .raw => if W.rawOk u.fld then { t with pc := .nested } else { t with pc := .pvErr }
-    | .none => if deref then { t with pc := .pvErr } else nextUse { t with wrongF := true }
+    | .none => if deref then { t with pc := .pvErr } else nextUse { t with wrongF := true } .asIs
     | .junk => { t with pc := .pvErr }
 
 /-- `if not self.forward_refs:` of the parser itself -/
@@ -217,7 +232,7 @@ def stepTh (W : World) (lg : Bool) (tid : Nat) (g : G) (t : Th) : G × Th :=
   | .start => (g, { t with pc := if t.calls.isEmpty then .fin else .chkBase })
   | .chkBase =>
     -- a class parser first asks the parser of the base class (`Schema`: nothing pending, ever)
-    if W.isFn then stepChk lg g t else (g, { t with pc := .chk })
+    if W.isFn || !W.schemaBase then stepChk lg g t else (g, { t with pc := .chk })
   | .chk => stepChk lg g t
   | .lock =>
     match g.lock with
@@ -328,5 +343,10 @@ def undefinedRef (W : World) : Bool := (List.range W.nf).any fun i => W.isRef i 
 
 def alone (W : World) (c : Call) : Outcome :=
   if !W.isFn && undefinedRef W then .nameError else parseOutcome W c
+
+/-- … and the value it returns alone: every keyword converted by its declared type -/
+def valsOf (c : List Use) : ValTrace := c.map fun u => (u.fld, Conv.byType)
+
+def aloneVals (W : World) (c : Call) : ValTrace := if alone W c = .ok then valsOf c else []
 
 end Utv.C20
